@@ -2,8 +2,8 @@ package main
 
 import (
 	"fmt"
-	"os"
 	"go/token"
+	"os"
 	"regexp"
 	"strings"
 
